@@ -339,7 +339,7 @@ def step_residuals(res, cls, time, pp, m_i, m_f, tol=1e-11, check_row0=False):
     # (when nothing diffused measurably the nominal value only sets the tolerance scale)
     c_hat = float(np.median(d[sig] / g[sig])) if sig.any() else float(max(nx, 2) ** 2)
     out["c_hat"] = c_hat
-    k = np.abs(c_hat) * dts[:, None] * a
+    k = np.abs(c_hat) * dts[:, None] * np.abs(a)
     s = (1 + 4 * k) * xinf[:, None] + np.abs(b)
     floor = 1e-30 * max(R, 1e-300)
     t = tol * s + floor
